@@ -1,0 +1,79 @@
+//go:build verif
+
+package xbuf
+
+// Contracts for the snesvc verifier (/verif). Comment-only; compiled only with -tags verif.
+// "modular symbolic": callers use the contract where the appended string has a symbolic length and execute the
+// body itself (loops unrolled) where it is a literal.
+
+//@ func (*B).C
+//@   property C15
+//@   ensures ret1 == b && len(*b) == old(len(*b))+1 && (*b)[old(len(*b))] == d
+//@   ensures all(j, int, 0 <= j && j < old(len(*b)) ==> (*b)[j] == old((*b)[j]))
+//@   assigns *b
+
+//@ func (*B).X02
+//@   property C15
+//@   ensures ret1 == b && len(*b) == old(len(*b))+2
+//@   ensures (*b)[old(len(*b))] == hexdigits[d>>4] && (*b)[old(len(*b))+1] == hexdigits[d&15]
+//@   ensures all(j, int, 0 <= j && j < old(len(*b)) ==> (*b)[j] == old((*b)[j]))
+//@   assigns *b
+
+//@ func (*B).X04
+//@   property C15
+//@   ensures ret1 == b && len(*b) == old(len(*b))+4
+//@   ensures (*b)[old(len(*b))] == hexdigits[d>>12] && (*b)[old(len(*b))+1] == hexdigits[d>>8&15] && (*b)[old(len(*b))+2] == hexdigits[d>>4&15] && (*b)[old(len(*b))+3] == hexdigits[d&15]
+//@   ensures all(j, int, 0 <= j && j < old(len(*b)) ==> (*b)[j] == old((*b)[j]))
+//@   assigns *b
+
+//@ func (*B).X06
+//@   property C15
+//@   ensures ret1 == b && len(*b) == old(len(*b))+6
+//@   ensures (*b)[old(len(*b))] == hexdigits[d>>20&15] && (*b)[old(len(*b))+1] == hexdigits[d>>16&15] && (*b)[old(len(*b))+2] == hexdigits[d>>12&15]
+//@   ensures (*b)[old(len(*b))+3] == hexdigits[d>>8&15] && (*b)[old(len(*b))+4] == hexdigits[d>>4&15] && (*b)[old(len(*b))+5] == hexdigits[d&15]
+//@   ensures all(j, int, 0 <= j && j < old(len(*b)) ==> (*b)[j] == old((*b)[j]))
+//@   assigns *b
+
+//@ func (*B).S
+//@   property C15
+//@   modular symbolic
+//@   ensures ret1 == b && len(*b) == old(len(*b))+len(s)
+//@   ensures all(j, int, 0 <= j && j < old(len(*b)) ==> (*b)[j] == old((*b)[j]))
+//@   ensures all(j, int, 0 <= j && j < len(s) ==> (*b)[old(len(*b))+j] == s[j])
+//@   assigns *b
+//@   loop 1 invariant 0 <= i && i <= len(s) && len(sb) == len(s) && len(*b) == old(len(*b))+i
+//@   loop 1 invariant all(j, int, 0 <= j && j < len(s) ==> sb[j] == s[j])
+//@   loop 1 invariant all(j, int, 0 <= j && j < old(len(*b)) ==> (*b)[j] == old((*b)[j]))
+//@   loop 1 invariant all(j, int, 0 <= j && j < i ==> (*b)[old(len(*b))+j] == s[j])
+//@   loop 1 modifies *b
+
+//@ func (*B).Sb
+//@   property C15
+//@   modular symbolic
+//@   ensures ret1 == b && len(*b) == old(len(*b))+len(sb)
+//@   ensures all(j, int, 0 <= j && j < old(len(*b)) ==> (*b)[j] == old((*b)[j]))
+//@   ensures all(j, int, 0 <= j && j < len(sb) ==> (*b)[old(len(*b))+j] == sb[j])
+//@   assigns *b
+//@   loop 1 invariant 0 <= i && i <= len(sb) && len(*b) == old(len(*b))+i
+//@   loop 1 invariant all(j, int, 0 <= j && j < old(len(*b)) ==> (*b)[j] == old((*b)[j]))
+//@   loop 1 invariant all(j, int, 0 <= j && j < i ==> (*b)[old(len(*b))+j] == sb[j])
+//@   loop 1 modifies *b
+
+//@ func (*B).Sn
+//@   property C15
+//@   modular symbolic
+//@   ensures ret1 == b && len(*b) == old(len(*b))+ite(n > len(s), n, len(s))
+//@   ensures all(j, int, 0 <= j && j < old(len(*b)) ==> (*b)[j] == old((*b)[j]))
+//@   ensures all(j, int, 0 <= j && j < len(s) ==> (*b)[old(len(*b))+j] == s[j])
+//@   ensures all(j, int, len(s) <= j && j < n ==> (*b)[old(len(*b))+j] == ' ')
+//@   assigns *b
+//@   loop 1 invariant 0 <= i && i <= len(s) && len(sb) == len(s) && len(*b) == old(len(*b))+i
+//@   loop 1 invariant all(j, int, 0 <= j && j < len(s) ==> sb[j] == s[j])
+//@   loop 1 invariant all(j, int, 0 <= j && j < old(len(*b)) ==> (*b)[j] == old((*b)[j]))
+//@   loop 1 invariant all(j, int, 0 <= j && j < i ==> (*b)[old(len(*b))+j] == s[j])
+//@   loop 1 modifies *b
+//@   loop 2 invariant len(s) <= i && i <= n && len(sb) == len(s) && len(*b) == old(len(*b))+i
+//@   loop 2 invariant all(j, int, 0 <= j && j < old(len(*b)) ==> (*b)[j] == old((*b)[j]))
+//@   loop 2 invariant all(j, int, 0 <= j && j < len(s) ==> (*b)[old(len(*b))+j] == s[j])
+//@   loop 2 invariant all(j, int, len(s) <= j && j < i ==> (*b)[old(len(*b))+j] == ' ')
+//@   loop 2 modifies *b
